@@ -591,6 +591,53 @@ theorem empty_file_post_partial (c : Cfg) (hc : c.posix = false) (fs fs' : FS) (
   refine ⟨i, hf', by rw [hdir]; exact hda, by rw [hsh.sym i]; exact hsa, ?_, hpb, hob⟩
   simp [effectiveSize, hte', hte, hdat, hdata]
 
+/-- the whole of `mutateDirectory` (with or without the recursive walk) keeps the shape `MkdirAll` left -/
+theorem mutateDirectory_shape (c : Cfg) (fs fsA : FS) (m : Mutation)
+    (hA : act c fs (.mkdirAll m.path (permMode m.perms)) = (fsA, none)) :
+    ShapeEq fsA (mutateDirectory c fs m).1 := by
+  unfold mutateDirectory
+  simp only [hA]
+  split
+  · exact walkRoot_keeps c _ (ShapeEq fsA) (fun f p h => ShapeEq.trans h (shape_mpd c f p _ _ _)) fsA m.path
+      (ShapeEq.refl fsA)
+  · exact ShapeEq.refl fsA
+
+/-- **mutation_post (directory), partial**: when the declared path has no `.` components and its
+lookup in the final state meets no symbolic link (the traversal counter stays 0 — the hypothesis
+that is not needed by the code, only by this proof), the path resolves to a *directory* carrying
+the declared permission bits and owner. -/
+theorem directory_post_plain (c : Cfg) (hc : c.posix = false) (fs fs' : FS) (m : Mutation) (hi : FS.Inv fs)
+    (ht : m.type = tDirectory) (h : mutateOne c fs m = (fs', none))
+    (hnodot : (parts m.path).filter (· ≠ dot) = parts m.path)
+    (i : Ino) (hplain : getNodeD fs' (maxLinks + 1) m.path 0 = .ok (i, 0)) :
+    follow c fs' m.path = some i ∧ (fs'.node i).dir = true ∧
+      permBitsOK (fs'.node i) m.perms = true ∧ ownerOK (fs'.node i) m.uid m.gid = true := by
+  have hfol : follow c fs' m.path = some i := by
+    simp [follow, getNode, resolveFrom, hc, hplain, Except.map]
+  obtain ⟨j, hj, hp, ho⟩ := mutation_post_attrs c fs fs' m hi (by simp [ht]) h
+  rw [hfol] at hj; cases hj
+  refine ⟨hfol, ?_, hp, ho⟩
+  -- the shape of the final state is the one `MkdirAll` left
+  rw [mutateOne_directory c fs m ht] at h
+  obtain ⟨fs1, h1, h2⟩ := andThen_ok (liftE_ok h)
+  simp only [Prod.mk.injEq] at h1
+  cases hA : act c fs (.mkdirAll m.path (permMode m.perms)) with
+  | mk fsA e =>
+    cases e with
+    | some e =>
+      exfalso
+      have : (mutateDirectory c fs m).2.1 = some e := by simp [mutateDirectory, hA]
+      rw [h1.2] at this; cases this
+    | none =>
+      have s1 : ShapeEq fsA fs1 := by rw [← h1.1]; exact mutateDirectory_shape c fs fsA m hA
+      have s2 : ShapeEq fs1 fs' := by
+        have := shape_mpd c fs1 m.path m.perms m.uid m.gid
+        unfold mutatePermissions at h2; rw [h2] at this; exact this
+      have sh := ShapeEq.trans s1 s2
+      rw [sh.dir i]
+      rw [getNodeD_shape sh] at hplain
+      exact mkdirAll_plain_dir c fs fsA m.path _ hi hA hnodot i hplain
+
 /-- **applied in order**: when a whole list of mutations succeeds, the last one was applied — as one
 iteration of the loop — to the state its predecessors produced (which satisfies the graph
 invariant), so every per-mutation theorem of this file speaks about the final state for the last
